@@ -519,6 +519,70 @@ func c02probes(c *core.Ctx) {
 			fail("absolute leafref in an imported grouping", perr.Error(), files)
 		}
 	}
+	// (1b) a prefix means what the file it is written in binds it to: a module and two of its submodules bind one prefix
+	//      to three modules
+	{
+		files := map[string]string{
+			"x":  `module x { namespace "urn:x"; prefix x; include s1; include s2; import lc { prefix p; } revision 2020-01-01; leaf c { type p:t; } }`,
+			"s1": `submodule s1 { belongs-to x { prefix x; } import la { prefix p; } leaf a { type p:t; } container ca { uses p:g; } }`,
+			"s2": `submodule s2 { belongs-to x { prefix x; } import lb { prefix p; } leaf b { type p:t; } container cb { uses p:g; } }`,
+			"la": `module la { namespace "urn:la"; prefix la; revision 2020-01-01; typedef t { type string; } grouping g { leaf g { type t; } } }`,
+			"lb": `module lb { namespace "urn:lb"; prefix lb; revision 2020-01-01; typedef t { type int32; } grouping g { leaf g { type t; } } }`,
+			"lc": `module lc { namespace "urn:lc"; prefix lc; revision 2020-01-01; typedef t { type boolean; } }`}
+		for round := 0; round < 6; round++ {
+			c.Evaluations++
+			m, err := load(files, "x")
+			if err != nil {
+				fail("one prefix bound to three modules by a module and its submodules", "valid module set does not load: "+err.Error(), files)
+				break
+			}
+			bad := false
+			for leaf, want := range map[string]string{"a": "string", "b": "int32", "c": "boolean", "ca/g": "string", "cb/g": "int32"} {
+				d, _ := meta.Find(m, leaf).(meta.Leafable)
+				if d == nil || d.Type().Format().String() != want {
+					got := "missing"
+					if d != nil {
+						got = d.Type().Format().String()
+					}
+					fail("one prefix bound to three modules by a module and its submodules", fmt.Sprintf("load %d: leaf %s is a %s, the prefix p of the file it is written in names a %s", round+1, leaf, got, want), files)
+					bad = true
+				}
+			}
+			if bad {
+				break
+			}
+		}
+	}
+	// (1c) a relative leafref in a grouping points to another leaf in every place the grouping is used
+	{
+		files := map[string]string{"r": `module r { namespace "urn:r"; prefix r; revision 2020-01-01;
+  grouping g { container in { leaf ref { type leafref { path "../../target"; } } leaf-list refs { type leafref { path "../../target"; } } } }
+  container c1 { leaf target { type int32; } uses g; }
+  container c2 { leaf target { type string; } uses g; }
+  container c3 { leaf target { type enumeration { enum a; enum b; } } uses g; }
+}`}
+		c.Evaluations++
+		m, err := load(files, "r")
+		if err != nil {
+			fail("relative leafref in a grouping used three times", "valid module does not load: "+err.Error(), files)
+		} else if perr := safeDo(func() error {
+			for at, want := range map[string]string{"c1": "int32", "c2": "string", "c3": "enumeration"} {
+				for _, leaf := range []string{"ref", "refs"} {
+					d, _ := meta.Find(m, at+"/in/"+leaf).(meta.Leafable)
+					if d == nil {
+						fail("relative leafref in a grouping used three times", at+"/in/"+leaf+" is not in the compiled tree", files)
+						continue
+					}
+					if got := d.Type().Resolve().Format().Single().String(); got != want {
+						fail("relative leafref in a grouping used three times", fmt.Sprintf("%s/in/%s resolves to a %s, ../../target is a %s there", at, leaf, got, want), files)
+					}
+				}
+			}
+			return nil
+		}); perr != nil {
+			fail("relative leafref in a grouping used three times", perr.Error(), files)
+		}
+	}
 	// (2) identities of a module that is imported by an imported module are linked to their bases, whatever the
 	//     module in between defines
 	for _, middle := range []string{"", "identity unrelated;"} {
